@@ -163,12 +163,34 @@ def _poisson(ck, D, N):
     Qr = np.vectorize(lambda c: Cx(c.re, ZERO), otypes=[object])(Q)  # real, symmetric multiplier
     ins = [In("Q", spec, "complex", sym_arr=Qr), In("f", (1,) + (N,) * D, sym_arr=fld)]
 
+    # the solver object stores ONE spectral multiplier (a private leaf, whatever its name and sign convention): it is
+    # located as the only array leaf of spectral shape, replaced by the free multiplier Q, and its sign convention
+    # (step_fourier(f_hat) = sgn * leaf * f_hat) is read off concretely
+    import jax
+
+    P0 = ex.poisson.Poisson(D, 1.0, N)
+    leaves = [(pth, lf) for pth, lf in jax.tree_util.tree_flatten_with_path(P0)[0] if hasattr(lf, "shape") and tuple(lf.shape) == spec]
+    if len(leaves) != 1:
+        ck.add_direct(f"poisson-physical/D{D}N{N}/encoding", "unknown", family="poisson physical call", detail=f"expected one spectral multiplier leaf in Poisson, found {len(leaves)}: the free-multiplier harness does not apply to this tree")
+        return
+    leaf0 = np.asarray(leaves[0][1])
+    probe = jnp.ones(spec, dtype=jnp.complex128)
+    j0 = next(i for i in np.ndindex(spec) if abs(leaf0[i]) > 0)
+    sgn = complex(np.asarray(P0.step_fourier(probe))[j0] / leaf0[j0]).real
+    if abs(abs(sgn) - 1.0) > 1e-12:
+        ck.add_direct(f"poisson-physical/D{D}N{N}/encoding", "unknown", family="poisson physical call", detail=f"step_fourier is not +-(stored multiplier) * f_hat (ratio {sgn}): the free-multiplier harness does not apply to this tree")
+        return
+    sgn = int(round(sgn))
+    is_leaf = lambda x: x is leaves[0][1]
+
     def g(Q, f):
         P = ex.poisson.Poisson(D, 1.0, N)
-        P = eqx.tree_at(lambda t: t._inv_operator, P, Q)
-        return P(f)
+        flat, tdef = jax.tree_util.tree_flatten(P)
+        k = next(i for i, lf in enumerate(jax.tree_util.tree_leaves(P0)) if lf is leaves[0][1])
+        flat[k] = Q
+        return jax.tree_util.tree_unflatten(tdef, flat)(f)
 
     enc = Encoded(g, ins, tag="pp")
     enc.validate(ck, what=f"poisson-physical/D{D}N{N}", max_components=6)
-    sol = {m: sym.cneg(sym.cmul(orc.half_lookup(Qr[0], m, N), v)) for m, v in coeffs[0].items()}
+    sol = {m: sym.cscale(sym.cmul(orc.half_lookup(Qr[0], m, N), v), orc.fl(sgn)) for m, v in coeffs[0].items()}
     enc.compare(ck, f"poisson-physical/D{D}N{N}", 0, sample(sol, D, N)[None], [], family="poisson physical call")
